@@ -100,11 +100,12 @@ for _l in LAYOUTS:
     REF[_l] = _r
 # the expected `data` does not come from the engine: reference executor (vf/ref/execute.py) over an independent reading of the SDL
 from vf.ref.model import model_from_sdl  # noqa: E402
-from vf.ref.execute import Ref, to_pairs  # noqa: E402
+from vf.ref.execute import Ref, to_pairs, errors_ok  # noqa: E402
 from vf import gqlfront  # noqa: E402
 _MODEL = model_from_sdl(SDL)
 _AST = gqlfront.parse(Q)
 EXPECT = {}
+REFX = {}
 for _l, (_g, _f) in LAYOUTS.items():
     def _rr(ptype, fname, parent, args, path, _f=_f):
         if path in _f:
@@ -112,7 +113,8 @@ for _l, (_g, _f) in LAYOUTS.items():
         if fname == "sum":
             return (args.get("a") or 0) * 10 + (args.get("b") or 0)
         return read(parent, fname)
-    EXPECT[_l] = Ref(_MODEL, _AST, _rr, None).execute(None, {}, DATA)
+    REFX[_l] = Ref(_MODEL, _AST, _rr, None)
+    EXPECT[_l] = REFX[_l].execute(None, {}, DATA)
 for _e in ENGS:
     run(_e, "fields", None)
 
@@ -159,5 +161,8 @@ def c08_order(c0: int, c1: int, c2: int, c3: int, c4: int) -> bool:
     # a propagating failure may cancel or run its siblings (spec latitude): every reference error path that is reported must be a
     # reference path, and the set of nulled positions is already pinned by `data`; require the same paths when no latitude applies
     if not set(ep) <= set(rp) or (bool(ep) != bool(rp)):
+        return verdict(False)
+    # whatever the completion order: every null visible in `data` is explained by one of its causes, and no error is reported that the reference cannot produce
+    if not errors_ok(resp, REFX[sh["layout"]]):
         return verdict(False)
     return verdict(well_behaved(loop, log))
